@@ -65,7 +65,8 @@ def gen_instances(rng, n, kind="plain"):
             elif m == 2: I = gen_layered(r, nvars=r.range(2, 4), per_layer=r.range(1, 3), dom_max=2, cost_lo=-6, cost_hi=0)  # negative optimum
             else: I = gen_layered(r, nvars=r.range(4, 7), per_layer=r.range(3, 5), dom_max=2, depth_free=True, dominance=0)  # state does not embed depth
         elif kind == "reconv":
-            I = gen_layered(r, nvars=r.range(4, 7), per_layer=r.range(1, 2), dom_max=r.range(2, 3), dominance=r.choice([0, 0, 1]))
+            I = gen_layered(r, nvars=r.range(4, 7), per_layer=r.range(1, 3), dom_max=r.range(2, 3), dominance=r.choice([0, 0, 1]),
+                            rub=r.choice([0, 1, 2, 3, 3]))
         elif kind == "longarc":
             I = gen_layered(r, nvars=r.range(3, 6), per_layer=r.range(2, 4), dom_max=2, depth_free=True, irrelevance=True, dominance=0)
         out.append(I)
@@ -252,7 +253,7 @@ def check_c01(tier, pid="C01"):
         # diagram-level stream with the threshold cache (and dominance store) shared across compilations, as the solvers do:
         # thresholds, cache calls and pruning flags of every compilation must equal the model's
         import check_mdd
-        st = check_mdd.Stream(sc.chk, tier, types=(2, 1), widths=(1, 2), ninst=(40 if tier == "quick" else 400), stores=True)
+        st = check_mdd.Stream(sc.chk, tier, types=(2, 1), widths=(1, 2, 3), flavours=(0, 1, 2), ninst=(60 if tier == "quick" else 600), stores=True)
         res = st.run()
         ag, ds = check_mdd.correspondence(sc.chk, res, ["status", "cx", "cv", "x", "bv", "ev", "CS", "DOT", "LOG"])
         ncu = sum(li.count("CU ") for _, rows in res for _, li, _, _ in rows)
@@ -261,6 +262,35 @@ def check_c01(tier, pid="C01"):
                                                  "cache_updates_compared": ncu}}
         for (I, meta, li, lm, case, why) in ds[:10]:
             sc.dis.append((I, case, li[:1200], lm[:1200], "diagram-level " + str(why)))
+    if sc.dis and not any(v[0] == "property" for v in sc.chk.violations):
+        # the correspondence broke but every property clause held so far: widen the search for a concrete failing input
+        # (10x more instances of the family in which this kind of defect shows: loose, state-dependent rough bounds)
+        wr = Rng(sc.chk.seed + 77)
+        winsts = []
+        for i in range(2500 if tier == "quick" else 12000):
+            r = wr.fork()
+            winsts.append(gen_layered(r, nvars=r.range(4, 7), per_layer=r.range(2, 4), dom_max=r.range(2, 3), dominance=r.choice([0, 0, 1]),
+                                      rub=r.choice([3, 3, 2, 0]), dead=r.chance(1, 4)))
+        wblocks = []
+        for I in winsts:
+            lines = [I.line()]
+            for (flv, cache, fr, w, dom) in CONFIGS_ALL:
+                if dom and I.domkind == 0: continue
+                if pid == "C09" and not cache: continue
+                if w == 3 and flv == 2: continue
+                lines.append(sline(0, 1, 1, flv, cache, fr, w, 0, dom))
+            wblocks.append(lines)
+        wimpl = run_blocks("impl", wblocks, pid + "w")
+        wopts = oracle_batch([(I.line(), ["O opt"]) for I in winsts])
+        nw = 0
+        for I, blk, il, op in zip(winsts, wblocks, wimpl, wopts):
+            for case, li in zip(blk[1:], il):
+                nw += 1
+                f = kv(li)
+                if "CRASH" in f or "HANG" in f or f.get("x") != "1" or f.get("bv") != op[0]:
+                    sc.chk.violation("property", "widened search: solver returns %s (exact=%s), optimum by exhaustive enumeration is %s (%s)"
+                                     % (f.get("bv"), f.get("x"), op[0], case), describe(I, case, li, optimum=op[0]))
+        sc.stats["widened_search_runs"] = nw
     expl = {
         "C01": "Executable Coq model of SequentialSolver (Solver.v, on top of the diagram model) compared run by run with the code (is_exact, value, bounds; explored and "
                "poll counts when no tie occurred) and, independently, the implementation's value compared with exhaustive enumeration extracted from the Coq "
